@@ -211,6 +211,14 @@ func c11(ctx *Ctx) (*Outcome, error) {
 		}
 		cases = append(cases, composeCase(r, kind, 1+(i/2)%4, i%10 >= 8, i))
 	}
+	for i := 0; i < ctx.N(12, 60); i++ {
+		cases = append(cases, sharedNodeCase(i, sg.NewRng(ctx.Seed, fmt.Sprintf("C11-shared-%d", i))))
+	}
+	for i := 0; i < ctx.N(12, 90); i++ {
+		if c := sameRefTextTwinCase(ctx, i, sg.NewRng(ctx.Seed, fmt.Sprintf("C11-twin-%d", i)), 1<<30); c != nil {
+			cases = append(cases, c)
+		}
+	}
 	cfg := &sem.Config{Prop: "C11", Tier: ctx.Tier, Seed: ctx.Seed, Cases: cases, Classes: docgen.Classes{"required": true, "type": true, "bound": true, "string": true}, Valid: 3, PerSite: 2, MaxDocs: 110,
 		Env: ctx.Env, Values: true, Own: nil}
 	rep, err := sem.Run(cfg)
